@@ -196,7 +196,7 @@ def check_triggers(ctx):
         if isinstance(v, SO) and v.parts and v.parts[0] == "Add":
             return terms(v.parts[1]) + terms(v.parts[2])
         return [render(v)]
-    stale, stale6, base_bad, tol_bad = [], [], [], []
+    stale, stale6, base_bad, tol_bad, early_bad = [], [], [], [], []
     n_refresh = 0
     for t in traces:
         sc = t.scenario
@@ -226,7 +226,14 @@ def check_triggers(ctx):
                 refreshed = any("A_new" in " ".join(terms(e.args[0])) for e in t.calls("set_link_exponents") if e.args)
                 if kept and not refreshed:
                     tol_bad.append(f"[{tag}] the baseline is overwritten although the refresh was skipped by a tolerance test")
-            elif not kept:
+            elif kept and sc["dynamic_A"] == "changed":
+                # the reference may move only once the operators hold the new potential: the refresh can be interrupted (Ctrl-C, resumed
+                # with 'y' - the step is retried) and the retry must still see the change
+                st_ev = [e for e in t.stores("current_A_applied") if render(e.value) == "A_new"]
+                rf_ev = [e for e in t.calls("set_link_exponents") if e.args and "A_new" in terms(e.args[0])]
+                if st_ev and rf_ev and t.index(st_ev[0]) < t.index(rf_ev[0]):
+                    early_bad.append(f"[{tag}] self.current_A_applied is set to the new potential before set_link_exponents runs with it")
+            if not tolerant and not kept:
                 base_bad.append(f"[{tag}] self.current_A_applied ends as {render(final[-1]) if final else 'the old value'}, not the potential of this step")
     if n_refresh < 2:
         raise AnalysisError("update() never hands a vector potential to the operators in any scenario")
@@ -238,6 +245,10 @@ def check_triggers(ctx):
            message=f"{base_bad[:1]}",
            consequence="a vector potential that changes and later returns to the stale reference value (pulse 0 -> B -> 0) "
                        "is taken for unchanged and the operators of the previous value stay in use")
+    ctx.ob("R10.5", "the reference of the change test moves only after the operators were refreshed with the new potential", not early_bad,
+           detail=early_bad[:4], where=fu.fq, construct="order of baseline update and refresh", loc=loc(fu, fu.node), message=f"{early_bad[:1]}",
+           consequence="a Ctrl-C inside the refresh that is answered with 'y' (pause_on_interrupt) retries the step: the retry finds the potential "
+                       "equal to the already advanced reference, skips the refresh and runs with half-refreshed link variables from then on")
     ctx.ob("R10.5", "a tolerance-guarded refresh keeps its baseline: the reference moves only when the operators are refreshed", not tol_bad,
            detail=tol_bad[:4], where=fu.fq, construct="tolerance-guarded refresh", loc=loc(fu, fu.node), message=f"{tol_bad[:1]}",
            consequence="a vector potential ramped by less than rtol=1e-5 per step never refreshes the "
